@@ -1099,6 +1099,10 @@ def fromFunction(func, interface=None, imlevel=0, name=None):
     method = Method(name, func.__doc__)
     defaults = getattr(func, '__defaults__', None) or ()
     code = func.__code__
+    # Only positional parameters can be implied: a signature such as
+    # ``def method(*args)`` receives ``self`` through ``*args`` and has
+    # nothing to strip.
+    imlevel = min(imlevel, code.co_argcount)
     # Number of positional arguments
     na = code.co_argcount - imlevel
     names = code.co_varnames[imlevel:]
